@@ -489,6 +489,42 @@ def r07g(ctx):
         raise AnalysisError("R07g: column trim loops not found")
 
 
+def r07h(ctx):
+    """After a bulk attach the column declarations are synchronised with the rows *of the table*.
+
+    `extend_rows` attaches rows without going through set_row/append_row, so it must widen the column declarations itself.  What counts is
+    the width of the rows as they now stand in the table — re-read through `self.traverse()` / `self._get_rows()` — not the Python objects
+    the caller passed (a generator is exhausted by the attach, a wrapper's cached width can lag behind its XML).  Rule: in Table methods a
+    loop that measures `<row>.width` to decide on `append_column` iterates over a row source of `self`.
+    """
+    repo = ctx.repo
+    ctx.rule("R07h", "width synchronisation after a bulk attach measures the table's own rows", floor=1)
+    t = repo.cls("Table")
+    n = 0
+    for name, fs in sorted(t.methods.items()):
+        f = fs[0]
+        if not any(isinstance(c, ast.Call) and call_name(c) == "append_column" for c in walk_no_nested(f.node)):
+            continue
+        params = {a.arg for a in f.all_params()} - {"self"}
+        for lp in [x for x in walk_no_nested(f.node) if isinstance(x, ast.For) and isinstance(x.target, ast.Name)]:
+            rv = lp.target.id
+            if not any(isinstance(x, ast.Attribute) and x.attr == "width" and isinstance(x.value, ast.Name) and x.value.id == rv for x in ast.walk(lp)):
+                continue
+            n += 1
+            it = lp.iter
+            src = canon(f, it)
+            own = src.startswith(("self.traverse(", "self._get_rows(", "self.get_rows(", "self.rows"))
+            from_param = any(isinstance(x, ast.Name) and x.id in params for x in ast.walk(it))
+            ok = own and not from_param
+            ctx.instance("R07h", f"{f.file}:{f.ident}", f"for {rv} in {norm(it, 40)}: widths measured on " + ("the table's rows" if ok else "the caller's objects"), ok=ok, nontrivial=True, line=lp.lineno)
+            if not ok:
+                ctx.report("R07h", f, lp, f"for {rv} in {norm(it, 40)}",
+                           f"Table.{name} decides how many columns to declare from the rows it was *given*, not from the rows the table now *has*: a generator argument is already "
+                           f"consumed, and a row object whose cached width lags behind its XML is under-measured — rows end up wider than the declared columns")
+    if n == 0:
+        raise AnalysisError("R07h: no width-measuring loop feeding append_column found in Table")
+
+
 def run(ctx):
     tom = run_tom(ctx.repo)
     r07a(ctx)
@@ -498,6 +534,10 @@ def run(ctx):
     r07e(ctx)
     r07f(ctx)
     r07g(ctx)
+    r07h(ctx)
+    # width and height are read from the position maps: a map left obsolete by a public method makes the reported size disagree with the XML (rules shared with C02)
+    from .c02 import r02ab
+    r02ab(ctx, tom)
 
 
 from ..selftest import Seed, unparse_seed  # noqa: E402
@@ -506,6 +546,7 @@ _T = "src/odfdo/table.py"
 _R = "src/odfdo/row.py"
 _C = "src/odfdo/cell.py"
 SEEDS = [
+    Seed("extend_rows measures the rows it was given", "fault", _T, "        width = self.width\n        for row in self.traverse():\n            if row.width > width:", "        width = self.width\n        for row in rows:\n            if row.width > width:", "R07h"),
     Seed("rstrip: remaining count accumulates instead of being replaced", "fault", _T,
          "        diff = column_width - max_width\n        if diff > 0:\n            for column in reversed(columns):\n                repeated = column.repeated or 1\n                repeated = repeated - diff\n                if repeated > 0:\n                    column.repeated = repeated\n                    break\n                else:\n                    column.parent.delete(column)\n                    diff = -repeated\n",
          "        diff = column_width - max_width\n        if diff > 0:\n            for column in reversed(columns):\n                repeated = column.repeated or 1\n                repeated = repeated - diff\n                if repeated > 0:\n                    column.repeated = repeated\n                    break\n                else:\n                    column.parent.delete(column)\n                    diff -= repeated\n", "R07g"),
